@@ -45,6 +45,9 @@ Section Cache.
   Variable clen : C -> Z.
   Variable cmem : C -> Z.
   Variable dirsize : Z.            (* st_size of a directory on the file system used *)
+  (* regenerated from update_file_futures_and_memory: *)
+  Variable oversize_uncached : bool.   (* can_cache = memory_usage <= max_memory and recover_memory(...) *)
+  Variable uncached_purges : bool.     (* the not-cached branch also removes the file's access-time item *)
 
   Inductive node := File (c : C) | Dir.
   Definition disk := list (name * node).
@@ -207,7 +210,7 @@ Section Cache.
 
   (* update_file_futures_and_memory *)
   Definition ufm (s : cache) (n : name) (usage t : Z) (ch : list name) : cache * option exc :=
-    match recover_memory s usage ch with
+    match (if oversize_uncached && (usage >? c_max s) then (s, inl false) else recover_memory s usage ch) with
     | (s1, inr e) => (s1, Some e)
     | (s1, inl can_cache) =>
         match assoc (c_entries s1) n with
@@ -218,7 +221,8 @@ Section Cache.
               (mkC (c_disk s2) (aset (c_entries s2) n (mkE false usage (e_fut info))) (c_heap s2)
                    (c_mem s2 + usage) (c_max s2), None)
             else
-              (mkC (c_disk s1) (aremove (c_entries s1) n) (c_heap s1) (c_mem s1) (c_max s1), None)
+              (mkC (c_disk s1) (aremove (c_entries s1) n)
+                   (if uncached_purges then heap_without (c_heap s1) n else c_heap s1) (c_mem s1) (c_max s1), None)
         end
     end.
 
@@ -435,6 +439,7 @@ Section Tables.
   Variable flen : frame -> Z.
   Variable fmem : frame -> Z.
   Variable dirsize : Z.
+  Variable ou pu : bool.
 
   Definition tcache := cache frame.
 
@@ -442,7 +447,7 @@ Section Tables.
 
   (* PandasDataFrameCache.update (t1: clock reading of the get, t2: of the update) *)
   Definition tbl_set (s : tcache) (n : name) (new : frame) (t1 t2 : Z) (ch1 ch2 : list name) : tcache * tres :=
-    let '(s1, g) := get_file frame flen fmem dirsize s n t1 ch1 in
+    let '(s1, g) := get_file frame flen fmem dirsize ou pu s n t1 ch1 in
     let merged :=
       match g with
       | inl old => inl (merge_frames old new)
@@ -452,7 +457,7 @@ Section Tables.
     match merged with
     | inr e => (s1, TErr e)
     | inl df =>
-        match update_file frame flen fmem s1 n df t2 ch2 with
+        match update_file frame flen fmem ou pu s1 n df t2 ch2 with
         | (s2, inl true) => (s2, TSet)
         | (s2, inl false) => (s2, TErr KeyErr)      (* retry loop: not reachable sequentially *)
         | (s2, inr e) => (s2, TErr e)
@@ -461,9 +466,86 @@ Section Tables.
 
   (* TableStorage.get = get_dataframe(default_empty=False) *)
   Definition tbl_get (s : tcache) (n : name) (t : Z) (ch : list name) : tcache * tres :=
-    match get_file frame flen fmem dirsize s n t ch with
+    match get_file frame flen fmem dirsize ou pu s n t ch with
     | (s1, inl f) => (s1, TVal f)
     | (s1, inr FileNotFound) => (s1, TUndef)
     | (s1, inr e) => (s1, TErr e)
     end.
+
+  (* operations of a table store over histories *)
+  Inductive top :=
+  | TOSet (n : name) (f : frame) (t1 t2 : Z) (ch1 ch2 : list name)
+  | TOGet (n : name) (t : Z) (ch : list name)
+  | TOUnload (n : name)
+  | TOReopen (mx : Z).
+
+  Definition tbl_step (s : tcache) (o : top) : tcache * tres :=
+    match o with
+    | TOSet n f t1 t2 ch1 ch2 => tbl_set s n f t1 t2 ch1 ch2
+    | TOGet n t ch => tbl_get s n t ch
+    | TOUnload n => (unload_file frame s n, TNone)
+    | TOReopen mx => (reopen frame s mx, TNone)
+    end.
+
+  Fixpoint tbl_run (s : tcache) (ops : list top) : tcache * list tres :=
+    match ops with
+    | [] => (s, [])
+    | o :: r =>
+        let '(s1, x) := tbl_step s o in
+        let '(s2, xs) := tbl_run s1 r in
+        (s2, x :: xs)
+    end.
+
+  (* specification: a dictionary of tables whose set is the documented merge (with capacity refusals) *)
+  Definition tspec_step (s : sstate frame) (o : top) : sstate frame * tres :=
+    match o with
+    | TOSet n new _ _ _ _ =>
+        let old := match assoc (s_map frame s) n with Some f => f | None => [] end in
+        if (match assoc (s_map frame s) n with Some f => flen f >? s_max frame s | None => false end)
+        then (s, TErr MemoryErr)
+        else if flen (merge_frames old new) >? s_max frame s then (s, TErr MemoryErr)
+        else (mkS frame (aset (s_map frame s) n (merge_frames old new)) (s_max frame s), TSet)
+    | TOGet n _ _ =>
+        match assoc (s_map frame s) n with
+        | Some f => (s, if flen f >? s_max frame s then TErr MemoryErr else TVal f)
+        | None => (s, TUndef)
+        end
+    | TOUnload _ => (s, TNone)
+    | TOReopen mx => (mkS frame (s_map frame s) (if Z.eqb mx 0 then default_max else mx), TNone)
+    end.
+
+  Fixpoint tspec_run (s : sstate frame) (ops : list top) : sstate frame * list tres :=
+    match ops with
+    | [] => (s, [])
+    | o :: r =>
+        let '(s1, x) := tspec_step s o in
+        let '(s2, xs) := tspec_run s1 r in
+        (s2, x :: xs)
+    end.
 End Tables.
+
+(* several store objects opened one after another on the same directory: (limit, operations) per object *)
+Section Sessions.
+  Variable C : Type.
+  Variable clen cmem : C -> Z.
+  Variable dirsize : Z.
+  Variable ou pu catches : bool.
+
+  Fixpoint sessions_run (d : disk C) (ss : list (Z * list (op C))) : disk C * list (list (res C)) :=
+    match ss with
+    | [] => (d, [])
+    | (mx, ops) :: r =>
+        let '(s, xs) := kvs_run C clen cmem dirsize ou pu catches (open_cache C d mx) ops in
+        let '(d', ys) := sessions_run (c_disk C s) r in
+        (d', xs :: ys)
+    end.
+
+  Fixpoint spec_sessions (m : dict C) (ss : list (Z * list (op C))) : dict C * list (list (res C)) :=
+    match ss with
+    | [] => (m, [])
+    | (mx, ops) :: r =>
+        let '(s, xs) := spec_run C clen (mkS C m (if Z.eqb mx 0 then default_max else mx)) ops in
+        let '(m', ys) := spec_sessions (s_map C s) r in
+        (m', xs :: ys)
+    end.
+End Sessions.
